@@ -202,6 +202,14 @@ func (c *ConstantStruct) Link(scope Scope, t TypeSpec) (ConstantValue, error) {
 				}
 				continue
 			}
+			if field.linkingDefault {
+				return nil, constantValueCastError{
+					Value: c,
+					Type:  t,
+					Reason: fmt.Errorf(
+						"the default value of field %q is defined in terms of itself", field.Name),
+				}
+			}
 			f = field.Default
 			c.Fields[field.Name] = f
 		}
